@@ -1,6 +1,7 @@
 package main
 
 import (
+	"bytes"
 	"encoding/binary"
 	"fmt"
 	"math/rand"
@@ -87,7 +88,7 @@ func tailcut(r *rand.Rand, all []dns.RR) []byte {
 		last = dns.Copy(all[r.Intn(len(all))])
 	}
 	m.Extra = []dns.RR{last}
-	b, err := m.Pack()
+	b, err := packBase(m)
 	if err != nil {
 		return nil
 	}
@@ -135,7 +136,7 @@ func sweep(all []dns.RR, w *hx.Writer, stride int, phase int) {
 		m := new(dns.Msg)
 		m.SetQuestion("example.org.", dns.TypeA)
 		m.Extra = []dns.RR{dns.Copy(last)}
-		b, err := m.Pack()
+		b, err := packBase(m)
 		if err != nil {
 			continue
 		}
@@ -169,10 +170,84 @@ func sweep(all []dns.RR, w *hx.Writer, stride int, phase int) {
 	}
 }
 
+// dense: well-formed messages of up to 64 KiB made of as many minimal items as fit (root-name questions, 15-octet
+// records, pointer owners, one-octet strings, empty options, 3-octet bitmap windows, 4-octet APL items): the work and
+// the memory of the decoder must stay proportional to the input however many names / items it holds.  Only the decode
+// itself is guarded here (printing 13 000 questions is not decoding).
+func dense(r *rand.Rand, scale int) {
+	hdr := func(qd, an, ar int) []byte {
+		h := make([]byte, 12)
+		h[2] = 0x80
+		binary.BigEndian.PutUint16(h[4:], uint16(qd))
+		binary.BigEndian.PutUint16(h[6:], uint16(an))
+		binary.BigEndian.PutUint16(h[10:], uint16(ar))
+		return h
+	}
+	rec := func(owner []byte, t uint16, rdata []byte) []byte {
+		b := append([]byte(nil), owner...)
+		b = append(b, byte(t>>8), byte(t), 0, 1, 0, 0, 0, 60, byte(len(rdata)>>8), byte(len(rdata)))
+		return append(b, rdata...)
+	}
+	rep := func(item []byte, n int) []byte { return bytes.Repeat(item, n) }
+	var msgs [][]byte
+	for _, n := range []int{800 / scale, 4000 / scale, 13100 / scale} {
+		msgs = append(msgs, append(hdr(n, 0, 0), rep([]byte{0, 0, 1, 0, 1}, n)...))                     // root questions
+		msgs = append(msgs, append(hdr(n, 0, 0), rep([]byte{1, 'a', 1, 'b', 0, 0, 1, 0, 1}, n*5/9)...)) // a.b. questions (count lies upward)
+	}
+	for _, n := range []int{300 / scale, 4300 / scale} {
+		msgs = append(msgs, append(hdr(0, n, 0), rep(rec([]byte{0}, dns.TypeA, []byte{192, 0, 2, 1}), n)...)) // root-owned A records
+		q := append(hdr(1, n, 0), 3, 'w', 'w', 'w', 7, 'e', 'x', 'a', 'm', 'p', 'l', 'e', 0, 0, 1, 0, 1)
+		msgs = append(msgs, append(q, rep(rec([]byte{0xc0, 12}, dns.TypeNS, []byte{2, 'n', 's', 0xc0, 16}), n)...)) // pointer owners and pointer RDATA names
+	}
+	big := 60000 / scale
+	msgs = append(msgs, append(hdr(0, 1, 0), rec([]byte{0}, dns.TypeTXT, rep([]byte{1, 'x'}, big/2))...))      // one-octet strings
+	msgs = append(msgs, append(hdr(0, 0, 1), rec([]byte{0}, dns.TypeOPT, rep([]byte{0, 12, 0, 0}, big/4))...)) // empty padding options
+	msgs = append(msgs, append(hdr(0, 0, 1), rec([]byte{0}, dns.TypeOPT, rep([]byte{0xfd, 0xe9, 0, 1, 7}, big/5))...))
+	var win []byte
+	for wdw := 0; wdw < 256; wdw++ {
+		win = append(win, byte(wdw), 1, 0x40)
+	}
+	msgs = append(msgs, append(hdr(0, 1, 0), rec([]byte{0}, dns.TypeNSEC, append([]byte{0}, win...))...))         // 256 bitmap windows
+	msgs = append(msgs, append(hdr(0, 1, 0), rec([]byte{0}, dns.TypeAPL, rep([]byte{0, 1, 8, 1, 10}, big/5))...)) // APL items
+	var sv []byte
+	for k := 0; k < big/4 && k < 16000; k++ {
+		sv = append(sv, byte((100+k)>>8), byte(100+k), 0, 0)
+	}
+	msgs = append(msgs, append(hdr(0, 1, 0), rec([]byte{0}, dns.TypeSVCB, append([]byte{0, 1, 0}, sv...))...)) // SvcParams without value
+	for _, b := range msgs {
+		if len(b) > 65535 {
+			b = b[:65535]
+		}
+		in := exact(b)
+		sum.Evaluations++
+		var m dns.Msg
+		guarded("Msg.Unpack", in, func() { _ = m.Unpack(in) })
+		cut := exact(in[:len(in)-1-r.Intn(7)]) // and the same cut short inside the last item
+		var m2 dns.Msg
+		guarded("Msg.Unpack", cut, func() { _ = m2.Unpack(cut) })
+	}
+}
+
+// packBase packs a well-formed message the harness built as raw material.  A panic of the library's packer on it is
+// the same event as a panic when an accepted decode result is packed again (the octets decode to this message), so it
+// is reported under that key instead of killing the run.
+func packBase(m *dns.Msg) (b []byte, err error) {
+	if p := hx.Catch(func() { b, err = m.Pack() }); p != "" {
+		sum.Mis("decode/postop-panic:Pack", "Pack of a well-formed message built by the harness panics: "+p, map[string]interface{}{"msg": m.String()})
+		return nil, fmt.Errorf("panic")
+	}
+	return b, err
+}
+
 func record(epath string, n int) {
 	r := hx.Rand()
 	w := hx.NewWriter(epath)
 	defer w.Close()
+	if hx.Thorough() {
+		dense(r, 1)
+	} else {
+		dense(r, 4)
+	}
 	all, err := zoo.All(zoo.Owners[r.Intn(len(zoo.Owners))])
 	if err != nil {
 		hx.Die("%v", err)
@@ -192,8 +267,11 @@ func record(epath string, n int) {
 			per = 30
 		}
 		m := zoo.Msg(r, all, per, r.Intn(3) == 0)
-		base, err := m.Pack()
+		base, err := packBase(m)
 		if err != nil {
+			if err.Error() == "panic" { // reported by packBase
+				continue
+			}
 			hx.Die("pack of a zoo message: %v", err)
 		}
 		in := mutate(r, base)
